@@ -113,10 +113,10 @@ PROPS["C03"] = dict(
         H(M01, "c03_ties2_n2t2", fetch=4, bounds="n=2,t=2ns; add,add,drain; times<=5"),
         H(M01, "c03_ties3_n1t2", fetch=4, bounds="n=1,t=2ns; add,add,fetch,add,drain; times<=5"),
         H(M01, "c03_ties3_n2t1", fetch=5, bounds="n=2,t=1ns; add,add,fetch,add,drain; times<=4"),
-        H(M01, "c03_ties3_n3t1", fetch=5, bounds="n=3,t=1ns; add,add,fetch,add,drain; times<=4", tier="thorough"),
+        H(M01, "c03_ties3_n3t1", fetch=5, mem=16, bounds="n=3,t=1ns; add,add,fetch,add,drain; times<=4", tier="thorough"),
         H(M01, "c03_adds3_n1t1", fetch=4, bounds="n=1,t=1ns; add,add,add,drain; times<=3"),
         H(M01, "c03_adds3_n2t2", fetch=4, bounds="n=2,t=2ns; add,add,add,drain; times<=5"),
-        H(M01, "c03_script4_n2t1", fetch=5, bounds="n=2,t=1ns; 4 symbolic ops then drain; times<=4", tier="thorough"),
+        H(M01, "c03_script4_n2t1", fetch=5, bounds="n=2,t=1ns; 4 symbolic ops then drain; times<=4", tier="experimental", mem=30),
     ],
 )
 
@@ -144,10 +144,10 @@ PROPS["C02"] = dict(
         H(MRT, "c02_clock_roundtrip_fullwidth", bounds="SimTime::set_now / now round trip, full-width u64 seconds x u32 nanos (no bound)"),
         H(MRT, "c02_dispatch_fullwidth", fetch=2, bounds="n=1, bucket width 2^63 s; one event at a full-width symbolic time < 2^63 s; one dispatch"),
         H(MRT, "c02_clock_n1t2", fetch=4, bounds="n=1,t=2ns; event at t1<=3 spawning follow-up at delay d<=2 (0 allowed); 3 dispatch_event calls"),
-        H(MRT, "c02_clock_n2t1", fetch=7, bounds="n=2,t=1ns; t1<=3, d<=2; 3 dispatch_event calls", tier="thorough"),
+        H(MRT, "c02_clock_n2t1", fetch=7, mem=18, bounds="n=2,t=1ns; t1<=3, d<=2; 3 dispatch_event calls", tier="thorough"),
         H(MRT, "c02_two_n1t8", fetch=2, unwindset=[DISPATCH(4)], bounds="n=1,t=8ns (one window); two pre-scheduled events at symbolic times<=3; dispatch_all"),
         H(MRT, "c02_two_n1t2", fetch=3, unwindset=[DISPATCH(4)], tier="thorough", bounds="n=1,t=2ns; two pre-scheduled events at symbolic times<=3; dispatch_all"),
-        H(MRT, "c02_two_n2t2", fetch=4, unwindset=[DISPATCH(4)], mem=16, bounds="n=2,t=2ns; two pre-scheduled events, times<=5; dispatch_all", tier="thorough"),
+        H(MRT, "c02_two_n2t2", fetch=4, unwindset=[DISPATCH(4)], mem=20, bounds="n=2,t=2ns; two pre-scheduled events, times<=5; dispatch_all", tier="thorough"),
         H(MRT, "c02_past_start_time", bounds="real Builder::start_time(s).build(), s<=4, add_event(t<s) must panic",
           expect_fail=["Cannot add past event to calender queue"], must_fail=["Cannot add past event to calender queue"]),
         H(MRT, "c02_future_start_time", fetch=4, bounds="real Builder::start_time(s).build(), s<=4, add_event(s<=t<=6) accepted, start(), dispatched at t"),
@@ -192,7 +192,7 @@ PROPS["C11"] = dict(
         H("runtime::limit::verif_c11", "c11_applies_leaf_and_none", bounds="full-width itr, time, n, T; leaf kinds symbolic"),
         H("runtime::limit::verif_c11", "c11_applies_depth2", bounds="And/Or of two symbolic leaves, full-width values"),
         H("runtime::limit::verif_c11", "c11_applies_depth3", tier="thorough", bounds="symbolic shape: (a op b) op c / c op (a op b), ops symbolic, full-width values"),
-        H("runtime::limit::verif_c11", "c11_add_composes_or", tier="thorough", bounds="None.add(a).add(b).add(c), full-width values"),
+        H("runtime::limit::verif_c11", "c11_add_composes_or", tier="experimental", mem=30, bounds="None.add(a).add(b).add(c), full-width values"),
         H(MRT, "c11_step_none_n1t8", fetch=2, bounds="n=1,t=8ns; itr<=4 symbolic, two pending events times<=3, limit None; ONE dispatch_event"),
         H(MRT, "c11_step_count_n1t8", fetch=2, bounds="same, EventCount(n<=4 symbolic)"),
         H(MRT, "c11_step_time_n1t8", fetch=2, bounds="same, SimTime(T<=4 symbolic)"),
@@ -256,14 +256,14 @@ PROPS["C15"] = dict(
         H(M15, "c15_alloc2_align1_16", mem=12, bounds="REAL allocator, page 128; alloc(size 1..64, align 1), alloc(size 1..64, align 16)"),
         H(M15, "c15_alloc_free_alloc_align8", mem=12, bounds="REAL allocator, page 128; alloc(l0),free,alloc(l1); sizes 1..64 symbolic, align 8"),
         H(M15, "c15_alloc_reuse_keeps_live_block", mem=16, timeout=1500, bounds="REAL allocator, page 128; alloc(24,align 8),alloc(32,align 8),free(second),alloc(size 1..64 symbolic, align 16)"),
-        H(M15, "c15_alloc_script3", bounds="REAL allocator, page 128; alloc,alloc,free(sym),alloc; sizes 1..64, align 1..16 symbolic", tier="thorough", timeout=5400, mem=24),
+        H(M15, "c15_alloc_script3", bounds="REAL allocator, page 128; alloc,alloc,free(sym),alloc; sizes 1..64, align 1..16 symbolic", tier="experimental", timeout=5400, mem=30),
         H(M15, "c15_alloc_page_limits", bounds="REAL allocator, page 128; one request of size 1..200, align 8"),
         H(M15P, "c15_payload_pending_n1t2", fetch=3, bounds="n=1,t=2ns; two D payloads at symbolic times<=3; queue dropped with both pending"),
         H(M15P, "c15_payload_fetch_n1t2", fetch=3, bounds="n=1,t=2ns; two payloads; fetch one, drop queue"),
         H(M15P, "c15_payload_cancel_n1t2", fetch=3, bounds="n=1,t=2ns; two payloads; cancel one (symbolic), drop queue"),
-        H(M15P, "c15_payload_pending_n2t2", fetch=3, bounds="n=2,t=2ns; both pending at drop", tier="thorough"),
-        H(M15P, "c15_payload_fetch_n2t2", fetch=3, bounds="n=2,t=2ns; fetch one, drop queue", tier="thorough"),
-        H(M15P, "c15_payload_cancel_n2t2", fetch=3, bounds="n=2,t=2ns; cancel one, drop queue", tier="thorough"),
+        H(M15P, "c15_payload_pending_n2t2", fetch=3, mem=16, bounds="n=2,t=2ns; both pending at drop", tier="thorough"),
+        H(M15P, "c15_payload_fetch_n2t2", fetch=3, mem=18, bounds="n=2,t=2ns; fetch one, drop queue", tier="thorough"),
+        H(M15P, "c15_payload_cancel_n2t2", fetch=3, mem=30, bounds="n=2,t=2ns; cancel one, drop queue", tier="experimental"),
         H(M15P, "c15_payload_types_roundtrip", fetch=3, bounds="A16 (align 16) and u8 payload, one event, symbolic time<=3"),
     ],
 )
